@@ -25,7 +25,7 @@ CLAIMS = {
     "C04": {
         "text": "Coq theorems: the proceeds / cost-basis / gain formulas re-derived from gain_loss.py on every run are (taxable fiat value x amount) / total and (lot cost x amount) / lot amount, "
                 "each within 1.1e-30 relative of exact rational arithmetic (DecProofs: half-even rounding to 31 digits, division with sticky bit), gain within 5e-31 of their difference, exact re-assembly in Q, "
-                "supplied fiat values win; every fraction of every run is compared digit for digit with the 31-digit decimal model and with exact rationals computed from the raw rows.",
+                "supplied fiat values win; re-assembly in the code's decimal arithmetic: the exact rational sum of the computed fractions of an event / fully consumed lot is within 1.1e-30 x |whole| (any n), their 31-digit left-to-right sum within n x 2.2e-30 x |whole|; every fraction of every run is compared digit for digit with the 31-digit decimal model and with exact rationals computed from the raw rows.",
         "note": "CPython's decimal is modelled by Base/Dec.v (validated by correspondence); 'no float' is the translator-checked FloatOperation trap + exact 31-digit agreement.",
         "technique": "Coq proof (decimal arithmetic model) + exact differential correspondence", "design_ref": "6 C04"},
     "C06": {
@@ -41,21 +41,20 @@ CLAIMS = {
         "note": "'Any moment' form assumes non-negative credits (a negative STAKING income is rejected by the matcher, not by this guard); balances between -1e-10 and -5e-11 are rejected by the code, which the property leaves open.",
         "technique": 'Coq proof (prefix characterisation of the replay) + differential correspondence + replay oracle', "design_ref": "6 C08"},
     "C10": {
-        "text": "Coq theorems on compute under two windows: views are always inside the window and initial segments of the rows dated in it, and equal the date filter when lists are time-sorted and local dates monotone; detail table, all running sums and every per-fraction figure identical under any window (the matcher output is an argument of compute; compute_tax passes the same fractions); balances, average price and fraction labels are functions of the to-date only; yearly lines = whole years from the from-date's year; F9 refutation witness; metamorphic windowed-vs-unfiltered runs incl. average-price and whole-year summary oracles, and the extracted model.",
-        "note": "'Exactly the rows in the window' needs dates monotone in time (F9; true for a single UTC offset, proved). Label values themselves (k of n) are corresponded and oracle-checked, not specified in Coq.",
+        "text": "Coq theorems on compute under two windows: views are always inside the window and initial segments of the rows dated in it, and equal the date filter when lists are time-sorted and local dates monotone; detail table, all running sums and every per-fraction figure identical under any window (the matcher output is an argument of compute; compute_tax passes the same fractions); balances, average price and fraction labels are functions of the to-date only; yearly lines = whole years from the from-date's year; functional specification of the fraction numbering (index = number of earlier fractions of the same event / lot among all fractions up to the to-date, count = total; exact success/failure characterisation incl. the housekeeping quirk), proved end to end for compute_tax on parser-built histories; average-price and sold-percentage specifications; F9 refutation witness; metamorphic windowed-vs-unfiltered runs incl. average-price and whole-year summary oracles, and the extracted model.",
+        "note": "'Exactly the rows in the window' needs dates monotone in time (F9; true for a single UTC offset, proved). Event labels need the block structure of the detail table (proved for the matcher's output; refuted otherwise: numbering_needs_blocks); sold % is by construction accumulated over the shown fractions only.",
         "technique": 'Coq proof + metamorphic differential correspondence', "design_ref": "6 C10"},
     "C09": {
-        "text": "Coq theorem spec_prefix_stable: the matching of events <= T is a prefix of the matching of any extension dated after T (unbounded, any continuation); metamorphic runs of the implementation "
-                "(prefix vs full history; -t D vs truncated history) compared with each other and with the model.",
-        "note": "to-date equivalence needs local dates monotone in time (finding F9); refinement model = spec is proved separately.",
+        "text": "Coq theorems: matcher prefix stability (the matching of events <= T is a prefix of the matching of any extension dated after T, any continuation); on the aggregation layer a run with to-date D equals, in every reported field (views, labels, yearly list, balances, price, sold %), the run on the history truncated at D, for compute and end to end for compute_tax (time-sorted lists, monotone dates; well-formedness of the truncated history derived); a history extended after T keeps fractions, detail table, per-fraction figures and running sums as a prefix and the yearly lines of untouched years; F9 refutation witness at compute_tax level; metamorphic runs of the implementation (every-cut prefix search on disagreement; -t D vs truncated history) compared with each other and with the model.",
+        "note": "to-date equivalence needs local dates monotone in time (finding F9); the extension theorem takes well-formedness of both histories and is stated on built transaction sets (extends_after), not on sheets.",
         "technique": "Coq proof + metamorphic differential correspondence", "design_ref": "6 C09"},
     "C11": {
         "text": "Proved for all inputs in the Coq model: for every configuration and every sheet rendered from typed source rows under any injective column map (all mandatory fields mapped, first cell of every data row non-empty and not a keyword), any junk in unmapped columns, distinct tables in any order, any number of blank rows between tables, parse_sheet cfg asset counter (render_sheet ...) = Ok (expected ...). Every field is read from its assigned column; each set's row ids are exactly the table's data-row numbers in sheet order; numbers are the half-even rounding of the cell's double to 11 decimals (|error| <= 5e-12, exact for doubles within 5e-12 of an 11-decimal value); empty optionals default as documented; a crypto fee on an acquisition becomes the acquisition plus an artificial FEE disposal at the same instant/account, coin flow crypto_in - fee, cost basis unchanged.",
         "note": "Model tied to the source by translator fragment 'parser' (format precision, TABLE END, table keywords, constructor parameter order / mandatory / RP2Decimal-typed lists, _HEADER_COLUMNS) and by a correspondence run on real .ini/.ods files: implementation = extracted model = independent Python oracle, field by field incl. unique_id/notes, artificial ids and the cross-sheet id counter. binary64 rounding is not modelled (C11_num11_exact_double_partial takes the half-ulp distance as hypothesis; the check validates it on every generated value). dateutil, ezodf cell reading and configparser are libraries (oracle tables / tokenised input). Known finding F15 (dust acquisition with crypto fee rejected).",
         "technique": "Coq proof of a parse-after-render round trip over a faithful parser model + translated source constants + differential correspondence against an independent oracle", "design_ref": "6 C11"},
     "C12": {
-        "text": "Proved in the Coq model that every fault class of the property text is rejected at every position: constructors (14 types x IN/OUT exact tables, transfers always MOVE, non-positive amounts with the STAKING exception, zero/negative spot where required, both fee kinds, received > sent, fee without spot); one bad cell in any field of any table row (unknown asset/exchange/holder, timestamp without zone, unknown type, non-numeric, empty mandatory); asset differs from sheet; the table state machine (nested table, blank row inside a table, TABLE END or data outside a table, repeated table step); a faulty row after ANY accepted prefix and before ANYTHING makes parse_sheet fail, also spelled out on rendered sheets; missing TABLE END; missing or empty IN table; unknown asset; header line faults at any line position, section faults at any section position, missing mandatory section/field; option conflicts (-m plus [accounting_methods], unsupported method, from > to, unknown -a, unknown method in config); any front-end rejection of any asset after any accepted ones => exit != 0 and no report, whatever later stages do. A repeated table is rejected provided the earlier table of that type has data rows; refuted otherwise (F11).",
-        "note": "Fault stream on real files: every class at every row/field/table/section position of small valid inputs; the implementation must raise, the model must return Err, and the five console scripts on a sample per class (rp2_us always) plus all option faults must give exit != 0, an error message, and no .ods in the output directory. Fault-free bases are checked to run to completion under all five scripts. configparser/json/jsonschema/argparse rejections are library behaviour (counted separately). Known finding F11.",
+        "text": "Proved in the Coq model: every fault class of the property text is rejected at every position: constructors (14 types x IN/OUT exact tables, transfers always MOVE, non-positive amounts with the STAKING exception, zero/negative spot where required, both fee kinds, received > sent, fee without spot); one bad cell in any field of any table row (unknown asset/exchange/holder, timestamp without zone, unknown type, non-numeric, empty mandatory), asset differs from sheet; the table state machine (nested table, blank row inside a table, TABLE END or data outside a table); a repeated table of any type already begun, with or without data rows in the earlier table, is rejected after any accepted prefix (C12_repeated_table_step, C12_repeated_table_rejected, resting on C12_code_remembers_tables which is read from parse_ods by the translator and does not compile against a parser that tests the transaction set for emptiness); a faulty row after ANY accepted prefix and before ANYTHING makes parse_sheet fail (also spelled out on rendered sheets); missing TABLE END; missing or empty IN table; unknown asset; header line faults at any line, section faults at any section, missing mandatory section/field; option conflicts (-m plus [accounting_methods], unsupported method, from > to, unknown -a, unknown method in config); any front-end rejection of any asset after any accepted ones => exit != 0 and no report, whatever later stages do.",
+        "note": "Fault stream on real .ini/.ods files: every class at every row/field/table/section position of small valid inputs; the implementation must raise and the model must return Err; the five console scripts on a sample per class (rp2_us always) plus all option faults must give exit != 0, an error message, and no .ods in the output directory. Fault-free bases are checked to run to completion under all five scripts. Translator fragment 'parser' supplies the repeated-table guard, format precision, keywords and constructor parameter tables; if unrecognised, the accepted fragment is used and the stream is doubled. configparser/json/jsonschema/argparse rejections are library behaviour (counted separately). F11 (repeated table accepted after an empty table of its type) is repaired in /repo: its replay runs first on every run and C12_repeated_table_refuted keeps the witness for the old behaviour.",
         "technique": "Coq case lemmas per fault class with universal position quantification (prefix/suffix lemmas on the state machine) + exhaustive single-fault injection against the implementation (in-process and CLI)", "design_ref": "6 C12"},
     "C20": {
         "text": "Proved on the Coq model of tax_report_jp.py (operations = template cells + insert_rows + _fill_cell; row arithmetic, columns, every fixed formula text, template geometry and the structural flags re-read from the source on each run): one sheet per (asset, local year with a visible transaction) in ascending order with distinct names; each row-bearing transaction of the year on exactly one row 21+k with its cells as final content; all writes and insertions within capacity; one summary sheet per year, line j at row 7+j pointing at that asset-year's own result cells; opening-balance cells reference the closing cells of the greatest earlier year that has a sheet, literal 0 if none; the generator produces the report for every input the engine accepts (no cell is ever handed None) unless both -f and -t are given; the behaviour before the fixes (F5, F14) is refuted by two vm_compute witnesses for the unrepaired flags. Corresponded: every generated tax_report_jp.ods (fresh interpreter per report, en and kl) is compared cell by cell, static cells included, with the extracted model, and judged by an independent oracle that dereferences every cross-sheet formula.",
